@@ -32,8 +32,13 @@ DENY = [
     (re.compile(r'^(core|std)::cell::RefCell::(borrow|borrow_mut)$'), 'refcell'),
     (re.compile(r'^std::time::(Instant|SystemTime)::(duration_since|elapsed)$|<std::time::(Instant|Duration|SystemTime) as std::ops::(Add|Sub|Mul|Div)'), 'time-arith'),
     (re.compile(r'^(core|std)::iter::Iterator::step_by$'), 'iter-api'),
+    # capacity requests: `capacity overflow` panic (or allocation-failure abort) when the count is not bounded
+    (re.compile(r'^(std|alloc)::(vec::Vec|string::String|collections::VecDeque)::(with_capacity|reserve|reserve_exact)$|^(std|alloc)::vec::from_elem$|^(std|alloc)::vec::Vec::resize$'), 'alloc'),
     (re.compile(r'^(core|std)::char::(from_digit)$'), 'char-api'),
 ]
+
+
+ALLOC_BOUND = 1 << 32
 
 
 def deny_kind(name):
@@ -415,6 +420,11 @@ def apply(an, st, call, bb):
       sz = an.read(st, call.args[1])
       if is_int(sz) and sz[1] >= 1:
         okf = True  # these only panic on a zero step / chunk size
+    if dk == 'alloc' and call.args:
+      # the requested count is the last integer argument; fine when provably small (ALLOC_BOUND elements)
+      cnt = an.read(st, call.args[-1 if last in ('with_capacity', 'reserve', 'reserve_exact') else 1])
+      if is_int(cnt) and cnt[1] >= 0 and cnt[2] <= ALLOC_BOUND:
+        okf = True
     if dk == 'unwrap' and call.args:
       k, _ = _referent(an, st, call.args[0])
       if k is not None and st.m.get((k[0], k[1] + ('always',))) == iv(1, 1):
